@@ -166,17 +166,27 @@ def r18_4(prog, rep):
 
 def r18_6(prog, rep, RULE='R18.6'):
     """"on any other input the parsers return an error": a key structure is the documented SEQUENCEs and nothing more. der-parser's container combinators
-    hand the closure the content of the object and *drop* whatever the closure leaves unparsed, so each structure parser of this crate (a closure that
-    calls the parse_der_* primitives and returns an IResult) reaches its Ok result only after `eof` was applied to the remaining input and its error
+    hand the closure the content of the object and *drop* whatever the closure leaves unparsed, so each closure handed to such a combinator
+    (parse_der_container, parse_der_sequence_defined_g ..) reaches its Ok result only after `eof` was applied to the remaining input and its error
     propagated. (Whether the object is a SEQUENCE at all is left to the combinator / the tag test and not decided here.)"""
     cp = prog.crates['curve25519-parser']
     n = 0
-    for c in cp.bodies:
-        if c.kind != 'Closure':
-            continue
-        prims = [b for b in c.calls() if 'der_parser' in cnorm(b.term) and b.term.cmethod.startswith(('parse_der_', 'parse_ber_'))]
-        if not prims or 'Result<' not in c.lty(0):
-            continue
+    # the closures handed to a der-parser container combinator (the combinator gives them the content of the object and drops their rest); a field
+    # closure handed to a helper of this crate that frames it is not one -- the helper's own container closure is
+    conts = []
+    for parent in cp.bodies:
+        for pb in parent.calls():
+            t = pb.term
+            if 'der_parser' not in cnorm(t) or not t.cmethod.startswith(('parse_der_', 'parse_ber_')) or not any(x in t.cmethod for x in ('container', '_defined_g')):
+                continue
+            for a_ in t.args:
+                e = expr_of(parent, a_)
+                if e[0] == 'agg' and e[3].j.get('agg') == 'closure':
+                    cb_ = prog.body('curve25519-parser', e[3].j['closure'])
+                    if cb_ is not None and cb_ not in conts:
+                        conts.append(cb_)
+    for c in conts:
+        prims = [b for b in c.calls()]
         n += 1
         rep.fn(c)
         oks = [(bl.idx, i) for bl in c.blocks if not bl.cleanup for i, st in enumerate(bl.stmts)
@@ -189,7 +199,7 @@ def r18_6(prog, rep, RULE='R18.6'):
                 continue
             br = [b for b in c.calls() if b.term.cmethod == 'branch' and b.term.args and b.term.args[0].place is not None and b.term.args[0].place[0] == e.term.dest[0]]
             # ... and it looks at what the last primitive left
-            src_ok = e.term.args and e.term.args[0].place is not None and any(pb.idx in origins(c, [e.term.args[0].place[0]]).calls for pb in prims)
+            src_ok = e.term.args and e.term.args[0].place is not None and bool(origins(c, [e.term.args[0].place[0]]).calls - {e.idx})
             if br and src_ok:
                 si = switch_info(prog, c, br[0].term.target) if br[0].term.target is not None else None
                 cont = enum_arm_target(si, 'Continue') if si and si['kind'] == 'enum' else None
@@ -200,7 +210,7 @@ def r18_6(prog, rep, RULE='R18.6'):
         rep.ob(RULE, ok, RULE + '|%s|structure-fully-consumed' % c.nkey, 'Ok only after eof(remaining input) succeeded' if ok else
                'a DER structure parser returns Ok without having checked that nothing is left in the object (%s): the container combinator drops the unparsed rest, so a '
                'key file with extra elements inside its SEQUENCE -- a second key, parameters after the OID -- is accepted' % (', '.join(bad) or 'no Ok result found'), c.loc())
-    rep.floor(RULE, n, 4, 'DER structure parsers (closures over parse_der_* primitives) in curve25519-parser')
+    rep.floor(RULE, n, 1, 'closures handed to a der-parser container combinator in curve25519-parser')
 
 
 def run(prog, rep, tier):
